@@ -202,10 +202,10 @@ func (p *parser) parse() (err error) {
 
 func (p *parser) pegText(node *node32) string {
 	for n := node; n != nil; n = n.next {
-		if s := p.pegText(n.up); s != "" {
-			return s
-		}
 		if n.pegRule != rulePegText {
+			if s := p.pegText(n.up); s != "" {
+				return s
+			}
 			continue
 		}
 
